@@ -35,6 +35,21 @@ STRENGTHENED.update({
  'C15-r3': 'missed at first in the time budget (caught when the unit ran to completion). Added the repeated-record shape and denser LDM hashing; sources are exact-size allocations.',
  'C17-r3': 'missed at first (no literal run of 65536). Added the long-length family `c17-longlen`: literal run of 65535..65538 followed by a repcode match, own parse and ZSTD_generateSequences output.',
  'C20-r3': 'missed at first (archives had <= 28 frames). Added unit `c20-bigtable`: 10922..36000 one-byte frames, every accessor of every frame, reads around the load-buffer boundaries.',
+ 'C01-r4': 'missed at first (the raw-literals fallback needs a literal entropy inside a narrow band). Added the literal-entropy sweep `c01-litband`: block A Huffman-friendly, blocks B and C one nearly flat distribution whose hot fraction is swept in 41 steps, three block sizes.',
+ 'C02-r4': 'missed at first (no stable-buffer mode in the histories). Added unit `c02-stable`: every history of <= 3 continue / flush calls on a growing stable input buffer, then end, with and without a stable output buffer.',
+ 'C04-r4': 'missed at first (literal sections of the catalogue were too short and too uniform for the four streams to drift apart). Added compressor records with 2.5 / 12 KB of Huffman literals whose one quarter uses three frequent symbols.',
+ 'C05-r4': 'missed at first by C05 (C08 caught it). The dictionary entries of the block-type family now take a raw dictionary or structured ones with IDs 255 / 256 / 65535 / 65536; the frame must carry that ID.',
+ 'C07-r4': 'NOT CAUGHT. `c07-opt` got a digested-dictionary variant (prior frame with the dictionary\'s table geometry, 3-byte-match texture, reference output round-tripped); in the sanitizer build the fresh and the reused context still agree on the inputs of the bound.',
+ 'C08-r4': 'missed at first (dictionaries were always loaded as ZSTD_dct_auto). Added unit `c08-rawcontent`: every structured dictionary declared raw content x {CDict, loadDictionary, refPrefix} x 4 attachment strategies x 3 levels: no ID in the frame, decodes with the bytes as raw content, R agrees.',
+ 'C10-r4': 'missed at first by C10 (the rsyncable subject of C07 hung on it). Added MT driver D15: rsyncable with real synchronisation points (256 KiB jobs, 2.5 MiB), end / flush with and without payload; the livelock horizon fires.',
+ 'C11-r4': 'NOT CAUGHT. Driver D16 (LDM, 3-4 workers, 24 jobs, window 4 KiB so that the round buffer wraps) was added and explored in the race-detecting build: exhaustive at P=1, D=1 (4 303 schedules), 470 387 schedules at P=2, D=2 in 600 s; the required schedule (one LDM step four sections behind the caller right after a wrap) was not reached.',
+ 'C14-r4': 'missed at first (a static DDict carries no allocator, so a counting ZSTD_customMem sees nothing). `c14-dicts` now compares the process heap (mallinfo2) around the static init calls and also hands over non-zeroed caller memory.',
+ 'C15-r4': 'missed at first (the frequent-correction build keeps the index low, so the pre-emptive reset at frame start is never taken). Added build variant `ovf-limit` (lowered limit, no frequent correction) and unit `c15-marathon`: 3 x 300 KB + 5..10 x 20 KB of warm-up so that the index ends between the "too close" mark and the limit, then every (shape, size, strategy, api).',
+ 'C16-r4': 'missed at first (C16 only modelled parameters, not dictionaries). Added unit `c16-dicts`: reference model of the dictionary a context holds over all histories of <= 4 operations (load / ref / prefix / frame / failing frame / three resets), probe frame compared with a fresh context holding the model\'s dictionary; both CCtx and DCtx.',
+ 'C17-r4': 'missed at first (producers behaved the same for every block). Added producers that serve the first 1-3 blocks with exactly 1..4 matches each and then fail (fallback on), and a source whose every block starts with a repcode-1 copy followed by a run (needs the right second repcode).',
+ 'C18-r4': 'missed at first (both determinism runs started from the same buffer content and no capacity left a remainder below d). The two runs now start from different buffer contents; capacities 1027 and 16389 added.',
+ 'C19-r4': 'missed at first (kill points model crashes, not failing calls). Added a third phase: in every scenario every data-writing call fails once with ENOSPC while the process lives on (ptrace: call skipped, result rewritten); oracle: non-zero exit status and recoverable data.',
+ 'C20-r4': 'missed at first (frames never exceeded one block). Added unit `c20-bigframes`: 300 KB of content, three maxFrameSize values, checksum on / off, input offered whole or in pieces, output room 1000 bytes or ample; every frame and 8 ranges read back.',
 })
 
 def main():
